@@ -540,6 +540,34 @@ MultiIndexSet addExclusiveChildren(const MultiIndexSet &tensors, const MultiInde
 }
 
 /*!
+ * \internal
+ * \ingroup TasmanianMultiIndexManipulations
+ * \brief Returns \b true if every direction has a non-negative limit and the \b total number of indexes that obey the limits fills the entire box defined by the limits.
+ *
+ * Used to terminate refinement loops that would otherwise wait for new indexes that the \b level_limits can never admit.
+ * \endinternal
+ */
+inline bool isLimitsBoxFull(std::vector<int> const &level_limits, std::initializer_list<MultiIndexSet const*> sets){
+    if (level_limits.empty()) return false;
+    size_t box = 1;
+    for(auto l : level_limits){
+        if (l < 0) return false; // unbounded direction, the set can always grow
+        box *= (size_t) (l + 1);
+    }
+    size_t inside = 0;
+    for(auto mset : sets){
+        size_t num_dimensions = mset->getNumDimensions();
+        for(int i=0; i<mset->getNumIndexes(); i++){
+            const int *p = mset->getIndex(i);
+            bool obeys = true;
+            for(size_t j=0; j<num_dimensions; j++) if (p[j] > level_limits[j]) obeys = false;
+            if (obeys) inside++;
+        }
+    }
+    return (inside >= box);
+}
+
+/*!
  * \ingroup TasmanianMultiIndexManipulations
  * \brief Converts int-indexes to double-valued abscissas using the provided rule.
  *
